@@ -1215,13 +1215,14 @@ def forest(events: list) -> list:
 
 
 def canon_forest(trees: list, R: Real) -> list:
-    """Graph.remove iterates a frozenset of nodes (hash order = address order): the order of the
-    calls it makes per node is not defined, so its children are compared as a sorted list."""
-    rm = R.KEYS.index("Graph.remove")
+    """Graph.remove iterates a frozenset of nodes and Graph.sort a set of graphs (hash order = address
+    order): the order of the calls they make per node / per graph is not defined, so their children
+    are compared as a sorted list."""
+    unordered = (R.KEYS.index("Graph.remove"), R.KEYS.index("Graph.sort"))
     out = []
     for t in trees:
         kids = canon_forest(t["steps"], R)
-        if t["k"] == rm:
+        if t["k"] in unordered:
             kids = sorted(kids, key=lambda x: json.dumps(x, sort_keys=True))
         out.append({"k": t["k"], "self": t["self"], "steps": kids, "out": t["out"]})
     return out
